@@ -256,7 +256,7 @@ def check(env, rep, tier):
                 for a_ in t["args"]:
                     if a_["k"] in ("copy", "move") and not a_["place"]["p"]:
                         atys.append(prog.types[af["locals"][a_["place"]["l"]]["ty"]]["s"])
-                if any(x in ("&mut packet::Packet", "&mut response::CoapResponse") for x in atys) and c.get("path") != "packet::Packet::set_content_format":
+                if any(x in ("&mut packet::Packet", "&mut response::CoapResponse") for x in atys) and c.get("path") not in ("packet::Packet::set_content_format", "response::CoapResponse::set_status"):   # set_status: code only (C19.2)
                     touch.append(c.get("path"))
             rep.ob("C07.6", "touches-only", not touch,
                    "apply_from_error hands the reply to %s: more than the code, the diagnostic payload and the content format can change "
